@@ -3,6 +3,8 @@
 and update meta.json's `recheck` field.  bin/recheck_seeded.py [C15|C19]"""
 import json, os, subprocess, sys, time
 VERIF = os.path.dirname(os.path.dirname(os.path.abspath(__file__)))
+# evidence written while /repo is modified must never land in /verif/evidence
+os.environ["IPT_EVIDENCE_DIR"] = os.path.join(VERIF, "build", "evidence-scratch")
 def sh(c, timeout=7200):
     r = subprocess.run(c, shell=True, stdout=subprocess.PIPE, stderr=subprocess.STDOUT, text=True, timeout=timeout)
     return r.returncode, r.stdout
